@@ -23,7 +23,12 @@ import (
 	"verif/sim/internal/eng"
 )
 
-const verifDir = "/verif"
+var verifDir = func() string {
+	if d := os.Getenv("VERIF_DIR"); d != "" {
+		return d
+	}
+	return "/verif"
+}()
 
 type phase struct {
 	Engine string
@@ -206,7 +211,7 @@ func runPhase(ph phase, bin string, seed uint64, tmp string) *phaseResult {
 				base := filepath.Join(tmp, fmt.Sprintf("%s-%d-%d", tag, w, attempt))
 				args := []string{"batch", "-engine", ph.Engine, "-seed", strconv.FormatUint(seed, 10), "-from", strconv.FormatUint(from, 10),
 					"-stride", strconv.Itoa(workers), "-n", "100000000", "-budget", remaining.String(), "-out", base + ".json", "-hashes", base + ".sig",
-					"-marker", base + ".mark", "-replays", filepath.Join(verifDir, "replays")}
+					"-marker", base + ".mark", "-replays", filepath.Join(verifDir, "replays"), "-known", filepath.Join(verifDir, "known_findings.json")}
 				ctx, cancelCtx := context.WithTimeout(context.Background(), remaining+remaining/2+120*time.Second)
 				defer cancelCtx()
 				cmd := exec.CommandContext(ctx, bin, args...)
